@@ -32,27 +32,22 @@ Theorem C02_partition_app : forall l, Iso.ser_pkt l = hdr_part l ++ Iso.lpayload
 Proof. exact ser_pkt_split. Qed.
 Print Assumptions C02_partition_app.
 
-(* ---- SetPayload, full statement ---- *)
-Definition C02_set_payload_ok_full : Prop := forall l d,
+(* ---- SetPayload: for EVERY well-formed packet that carries payload and EVERY data slice the
+        method returns min(n, capacity) and leaves exactly the serialisation of Iso.set_payload l d:
+        first min(n, capacity) bytes stored, header fields kept (control 01 -> 11 only when an
+        adaptation field has to be created), every adaptation-field flag and optional field kept,
+        the gap filled with 0xFF stuffing ---- *)
+Theorem C02_set_payload_ok : forall l d,
   Iso.wf_lpkt l -> carries_payload l ->
   SetPayload_m (Iso.ser_pkt l) d = (Iso.ser_pkt (Iso.set_payload l d), Ok (N.min (len d) (Iso.capacity l))).
-(* PROVED PART: every well-formed packet that already has an adaptation field (populated with any
-   subset of optional fields, or of length 0 - the shape of defect F7), for all data; and
-   payload-only packets (control 01) when the data fills the packet (n >= 184).
-   MISSING: control 01 with n < 184, where SetPayload first creates the adaptation field through
-   SetAdaptationFieldControl/initAdaptationField; that path is covered by the correspondence only
-   (generator kinds set-short on view-afc1 packets). *)
-Theorem C02_set_payload_ok_partial : forall l d,
-  Iso.wf_lpkt l -> carries_payload l -> (Iso.lf l <> Iso.NoAF \/ 184 <= len d) ->
-  SetPayload_m (Iso.ser_pkt l) d = (Iso.ser_pkt (Iso.set_payload l d), Ok (N.min (len d) (Iso.capacity l))).
-Proof. exact set_payload_ok_partial. Qed.
-Print Assumptions C02_set_payload_ok_partial.
+Proof. exact set_payload_ok. Qed.
+Print Assumptions C02_set_payload_ok.
 
 (* n = 0 is included above: SetPayload(p, nil) returns 0 and turns the whole payload area into stuffing,
    leaving control 11 with adaptation_field_length 183 and an empty payload (read back as empty).  That
    result is NOT well-formed in the ISO sense (length <= 182 is required with control 11), which is why the
    next theorem asks for at least one byte; see notes/findings/C02.md. *)
-Theorem C02_set_payload_empty : forall l, Iso.wf_lpkt l -> carries_payload l -> Iso.lf l <> Iso.NoAF ->
+Theorem C02_set_payload_empty : forall l, Iso.wf_lpkt l -> carries_payload l ->
   SetPayload_m (Iso.ser_pkt l) [] = (Iso.ser_pkt (Iso.set_payload l []), Ok 0) /\
   Iso.lpayload (Iso.set_payload l []) = [] /\ Iso.afc (Iso.lh (Iso.set_payload l [])) = 3.
 Proof. exact set_payload_empty. Qed.
